@@ -173,7 +173,10 @@ func render1(w writer, n *Node) error {
 			return err
 		}
 	}
-	if voidElements[n.Data] {
+	// Only HTML elements are void. A foreign (SVG or MathML) element that merely
+	// shares its name with one, such as the <input> in "<svg><input>x", can have
+	// children; it is then rendered like any other element.
+	if voidElements[n.Data] && (n.Namespace == "" || n.FirstChild == nil) {
 		if n.FirstChild != nil {
 			return fmt.Errorf("html: void element <%s> has child nodes", n.Data)
 		}
